@@ -2,27 +2,89 @@ import PelModel.Plugins
 import PelProofs.Plugins
 /-
   C19 — Decoding a PEL gives the same result whatever was decoded before it.
-  The only state that survives a decode in the model is the three module caches; a decode looks modules up THROUGH the
-  caches and afterwards stores the import results of whatever modules it touched (any set).
+  The state that survives a decode is the four module tables (`userDataParsers`, `srcParsers`, `calloutParsers`,
+  `osrcParsers`) and the component-id table with its "attempted" flag.  The model contains the UPDATE RULES of that state as
+  the code has them (`udLookup`, `srcLookup`, `calloutLookup`, `osrcLookup`, `compIdLookup`: PelModel/Plugins.lean); a decode
+  looks everything up THROUGH the state and leaves the state its look-ups produce (`stepCaches`, any ordered list of look-ups).
+  Nothing is assumed about the rules: that they keep the state coherent is proved here.
 -/
 namespace Pel.C19
 
-/-- a fresh process has coherent (empty) caches -/
-theorem coherent_init (env : Env) : Coherent env {} :=
-  ⟨fun n => lookCache_nil _ n, fun n => lookCache_nil _ n, fun n => lookCache_nil _ n⟩
+/-- a fresh process has coherent (empty) tables -/
+theorem coherent_init (env : ProcEnv) : Coherent env {} :=
+  ⟨fun _ => rfl, fun _ => rfl, fun _ => rfl, fun _ => rfl, rfl⟩
 
-/-- ★ with coherent caches a decode gives exactly the result of a decode in a fresh process -/
-theorem coherent_decode (env : Env) (cfg : SelCfg) (c : Caches) (b : Bytes) (hc : Coherent env c) :
-    parsePEL (env.through c) cfg b = parsePEL env cfg b := by
+/-- ★ with coherent tables a decode gives exactly the result of a decode in a fresh process -/
+theorem coherent_decode (env : ProcEnv) (cfg : SelCfg) (c : Caches) (b : Bytes) (hc : Coherent env c) :
+    parsePEL (env.through c) cfg b = parsePEL env.fresh cfg b := by
   rw [through_eq_of_coherent env c hc]
 
-/-- ★ coherence is preserved by every decode: well-formed, damaged or failing input, whatever modules it touched -/
-theorem inv_preserved (env : Env) (cfg : SelCfg) (c : Caches) (b : Bytes) (t : Touched) (hc : Coherent env c) :
-    Coherent env (decodeS env cfg c b t).2 := by
-  obtain ⟨h1, h2, h3⟩ := hc
-  exact ⟨storeImports_coherent _ _ _ h1, storeImports_coherent _ _ _ h2, storeImports_coherent _ _ _ h3⟩
+/-! ### the update rules keep the tables coherent -/
 
-theorem history_coherent (env : Env) (cfg : SelCfg) (h : List (Bytes × Touched)) (c : Caches) (hc : Coherent env c) :
+/-- ★ `parseCustom` / `userDataParsers` -/
+theorem ud_lookup_preserves_coherent (env : ProcEnv) (c : Cache UdPlugin) (m : Text)
+    (hc : ∀ n, (udLookup env c n).1 = (udLookup env [] n).1) :
+    ∀ n, (udLookup env (udLookup env c m).2 n).1 = (udLookup env [] n).1 :=
+  fun n => (udLookup_stable env c m n).trans (hc n)
+
+/-- ★ `SRC.parse` / `srcParsers` -/
+theorem src_lookup_preserves_coherent (env : ProcEnv) (c : Cache SrcMod) (m : Text)
+    (hc : ∀ n, (srcLookup env c n).1 = (srcLookup env [] n).1) :
+    ∀ n, (srcLookup env (srcLookup env c m).2 n).1 = (srcLookup env [] n).1 :=
+  fun n => (srcLookup_stable env c m n).trans (hc n)
+
+/-- ★ `getProcedureDesc` / `calloutParsers` -/
+theorem callout_lookup_preserves_coherent (env : ProcEnv) (c : Cache CalloutPlugin) (m : Text)
+    (hc : ∀ n, (calloutLookup env c n).1 = (calloutLookup env [] n).1) :
+    ∀ n, (calloutLookup env (calloutLookup env c m).2 n).1 = (calloutLookup env [] n).1 :=
+  fun n => (calloutLookup_stable env c m n).trans (hc n)
+
+/-- ★ `osrc.parseSRCToJson` / `osrcParsers` -/
+theorem osrc_lookup_preserves_coherent (env : ProcEnv) (c : Cache SrcPlugin) (m : Text)
+    (hc : ∀ n, (osrcLookup env c n).1 = (osrcLookup env [] n).1) :
+    ∀ n, (osrcLookup env (osrcLookup env c m).2 n).1 = (osrcLookup env [] n).1 :=
+  fun n => (osrcLookup_stable env c m n).trans (hc n)
+
+/-- ★ `getDisplayCompID` / `componentIDs`, `attemptedToParseCompIDs` -/
+theorem compid_lookup_preserves_coherent (dir : Option ConfDir) (st : CompIdState)
+    (hc : (compIdLookup dir st).1 = (compIdLookup dir {}).1) :
+    (compIdLookup dir (compIdLookup dir st).2).1 = (compIdLookup dir {}).1 := by
+  rw [compIdLookup_idem]; exact hc
+
+/-- ★ all five together: one look-up, at any site, of any module -/
+theorem lookup_preserves_coherent (env : ProcEnv) (c : Caches) (l : Lookup) (hc : Coherent env c) :
+    Coherent env (stepLookup env c l) :=
+  hc.of_sameView (stepLookup_sameView env c l)
+
+/-- ★ more than coherence: for ANY tables (coherent or not) the look-ups of a decode never change what a look-up hands to
+    the decoder — an entry is written once, under a name that is not a key, and shows what the import showed.  (This is why
+    `decodeS` may compute the whole decode through the tables as they were when it started.) -/
+theorem lookups_stable (env : ProcEnv) (c : Caches) (t : List Lookup) :
+    (∀ n, (udLookup env (stepCaches env c t).ud n).1 = (udLookup env c.ud n).1) ∧
+    (∀ n, (srcLookup env (stepCaches env c t).src n).1 = (srcLookup env c.src n).1) ∧
+    (∀ n, (calloutLookup env (stepCaches env c t).callout n).1 = (calloutLookup env c.callout n).1) ∧
+    (∀ n, (osrcLookup env (stepCaches env c t).osrc n).1 = (osrcLookup env c.osrc n).1) ∧
+    (compIdLookup env.confDir (stepCaches env c t).comp).1 = (compIdLookup env.confDir c.comp).1 :=
+  let h := stepCaches_sameView env t c
+  ⟨h.ud, h.src, h.callout, h.osrc, h.comp⟩
+
+theorem through_stable (env : ProcEnv) (c : Caches) (t : List Lookup) :
+    env.through (stepCaches env c t) = env.through c := by
+  obtain ⟨h1, h2, h3, h4, h5⟩ := lookups_stable env c t
+  have e1 : (fun n => (udLookup env (stepCaches env c t).ud n).1) = (fun n => (udLookup env c.ud n).1) := funext h1
+  have e2 : seenSrc env (stepCaches env c t) = seenSrc env c := by
+    funext n; unfold seenSrc; rw [h2 n, h2 (s "osrc"), h4 n]
+  have e3 : seenCallout env (stepCaches env c t) = seenCallout env c := by
+    funext n; unfold seenCallout; rw [h3 n]
+  unfold ProcEnv.through
+  rw [e1, e2, e3, h5]
+
+/-- ★ coherence is preserved by every decode: well-formed, damaged or failing input, whatever it looked up, in whatever order -/
+theorem inv_preserved (env : ProcEnv) (cfg : SelCfg) (c : Caches) (b : Bytes) (t : List Lookup) (hc : Coherent env c) :
+    Coherent env (decodeS env cfg c b t).2 :=
+  hc.of_sameView (stepCaches_sameView env t c)
+
+theorem history_coherent (env : ProcEnv) (cfg : SelCfg) (h : List (Bytes × List Lookup)) (c : Caches) (hc : Coherent env c) :
     Coherent env (runHistory env cfg c h) := by
   induction h generalizing c with
   | nil => exact hc
@@ -32,26 +94,146 @@ theorem history_coherent (env : Env) (cfg : SelCfg) (h : List (Bytes × Touched)
     exact ih _ (inv_preserved env cfg c b t hc)
 
 /-- ★ history independence: after ANY sequence of decodes the result for `b` is the result of decoding `b` first -/
-theorem history_independent (env : Env) (cfg : SelCfg) (h : List (Bytes × Touched)) (b : Bytes) (t : Touched) :
-    (decodeS env cfg (runHistory env cfg {} h) b t).1 = parsePEL env cfg b :=
+theorem history_independent (env : ProcEnv) (cfg : SelCfg) (h : List (Bytes × List Lookup)) (b : Bytes) (t : List Lookup) :
+    (decodeS env cfg (runHistory env cfg {} h) b t).1 = parsePEL env.fresh cfg b :=
   coherent_decode env cfg _ b (history_coherent env cfg h {} (coherent_init env))
 
 /-- decoding the same input twice, or in another order of the directory, gives identical output -/
-theorem repeat_same (env : Env) (cfg : SelCfg) (h h' : List (Bytes × Touched)) (b : Bytes) (t t' : Touched) :
+theorem repeat_same (env : ProcEnv) (cfg : SelCfg) (h h' : List (Bytes × List Lookup)) (b : Bytes) (t t' : List Lookup) :
     (decodeS env cfg (runHistory env cfg {} h) b t).1 = (decodeS env cfg (runHistory env cfg {} h') b t').1 := by
   rw [history_independent, history_independent]
 
-/-- documentation of the repaired defect: a cache that stored "not found" for a module that exists (as the code did after
+/-! ### what the tables hold -/
+
+theorem exact_history (env : ProcEnv) (cfg : SelCfg) (h : List (Bytes × List Lookup)) (c : Caches) (hc : Exact env c) :
+    Exact env (runHistory env cfg c h) := by
+  induction h generalizing c with
+  | nil => exact hc
+  | cons p h ih =>
+    obtain ⟨b, t⟩ := p
+    unfold runHistory
+    exact ih _ (hc.steps env t c)
+
+/-- ★ after any history from the empty tables: `(n, None)` only for modules whose import fails — user data: ImportError;
+    SRC and callout: any failure; osrc: ModuleNotFoundError only — and `(n, module)` only with that module's behaviour; a
+    user-data module whose import raises something that is not an ImportError is never stored; the component-id table is
+    empty before the one attempt and the loader's result after it -/
+theorem cache_contents (env : ProcEnv) (cfg : SelCfg) (h : List (Bytes × List Lookup)) :
+    (∀ n v, (n, v) ∈ (runHistory env cfg {} h).ud → UdEntryOk env n v) ∧
+    (∀ n msg, env.ud n = .importRaises msg → ∀ v, (n, v) ∉ (runHistory env cfg {} h).ud) ∧
+    (∀ n v, (n, v) ∈ (runHistory env cfg {} h).src → SrcEntryOk env n v) ∧
+    (∀ n v, (n, v) ∈ (runHistory env cfg {} h).callout → CalloutEntryOk env n v) ∧
+    (∀ n v, (n, v) ∈ (runHistory env cfg {} h).osrc → OsrcEntryOk env n v) ∧
+    CompStateOk env (runHistory env cfg {} h).comp := by
+  have hx := exact_history env cfg h {} (Exact.init env)
+  refine ⟨hx.ud, ?_, hx.src, hx.callout, hx.osrc, hx.comp⟩
+  intro n msg he v hv
+  have := hx.ud n v hv
+  cases v with
+  | none => unfold UdEntryOk at this; rw [he] at this; exact UdPlugin.noConfusion this
+  | some b => exact this.2.2 msg (this.1.symm.trans he)
+
+/-- the tables are dicts: no module name is stored twice (the rules only assign to a name that is not a key) -/
+theorem cache_keys_distinct (env : ProcEnv) (cfg : SelCfg) (h : List (Bytes × List Lookup)) :
+    ((runHistory env cfg {} h).ud.map (·.1)).Nodup ∧ ((runHistory env cfg {} h).src.map (·.1)).Nodup ∧
+    ((runHistory env cfg {} h).callout.map (·.1)).Nodup ∧ ((runHistory env cfg {} h).osrc.map (·.1)).Nodup :=
+  let hx := exact_history env cfg h {} (Exact.init env)
+  ⟨hx.udKeys, hx.srcKeys, hx.calloutKeys, hx.osrcKeys⟩
+
+/-! ### the repaired defect -/
+
+/-- documentation of the repaired defect: a table that stored "not found" for a module that exists (as the code did after
     a failing parser call) is not coherent, and the module is then no longer consulted -/
-theorem poisoned_cache_not_coherent (env : Env) (n : Text) (he : env.ud n = .echo) :
-    ¬ Coherent env { ud := [(n, .absent)] } ∧ (env.through { ud := [(n, .absent)] }).ud n = .absent := by
-  have hl : lookCache [(n, UdPlugin.absent)] env.ud n = .absent := by
-    rw [lookCache_cons]; simp
+theorem poisoned_cache_not_coherent (env : ProcEnv) (n : Text) (he : env.ud n = .echo) :
+    ¬ Coherent env { ud := [(n, none)] } ∧ (env.through { ud := [(n, none)] }).ud n = .absent := by
+  have hl : (udLookup env [(n, none)] n).1 = .absent := by
+    rw [udLookup_fst]; unfold seenVia; rw [cacheGet_cons]; simp [udHit]
   refine ⟨?_, hl⟩
   intro hc
   have := hc.1 n
-  rw [he] at this
-  rw [show ({ ud := [(n, .absent)] } : Caches).ud = [(n, UdPlugin.absent)] from rfl, hl] at this
+  rw [udLookup_nil, he] at this
+  rw [show ({ ud := [(n, none)] } : Caches).ud = [(n, none)] from rfl, hl] at this
   exact UdPlugin.noConfusion this
+
+/-! a concrete world: user-data, SRC, callout and component modules of every behaviour, a configuration directory -/
+
+def exTables : Tables :=
+  { creators := [], sectionNames := [], subsystems := [], severities := [], eventTypes := [], eventScopes := [],
+    actionFlags := [], transStates := [], failingCompTypes := [], calloutPriorities := [], compIds := [] }
+
+def exEnv : ProcEnv :=
+  { T := exTables,
+    ud := fun n => if n = s "x1111" then .echo else if n = s "x2222" then .raises (s "boom")
+                   else if n = s "x8888" then .importRaises (s "load failure") else .absent,
+    src := { callout := fun n => if n = s "x" then .table [(s "PROC0001", [s "line one"])] else .absent,
+             src := fun n => if n = s "xsrc" then .echo else if n = s "o8d00" then .echo else .absent },
+    allowPlugins := true,
+    srcFault := fun n => if n = s "ysrc" then .other else if n = s "o7700" then .other
+                         else if n = s "o7800" then .importError else .notFound,
+    calloutFault := fun n => if n = s "y" then .other else .notFound,
+    confDir := some [(s "O_component_ids.json", [(s "2000", s "bmc")]), (s "message_registry.json", []),
+                     (s "B_component_ids.json.bak", [(s "2000", s "hb")]), (s "O_component_ids.json.orig", [(s "2000", s "old")])] }
+
+/-- one decode that consulted every site: modules that exist, that are not there, whose import raises, twice -/
+def exLookups : List Lookup :=
+  [.compId, .ud (s "x1111"), .ud (s "x4444"), .ud (s "x8888"), .ud (s "x8888"), .ud (s "x2222"), .ud (s "x1111"),
+   .src (s "xsrc"), .src (s "ysrc"), .src (s "zsrc"), .src (s "osrc"), .osrc (s "o8d00"), .osrc (s "o7700"), .osrc (s "o7800"),
+   .osrc (s "o9900"), .osrc (s "o7700"), .callout (s "x"), .callout (s "y"), .callout (s "z"), .compId]
+
+/-- ★ `old_rule_breaks_coherence`: the pre-fix rule (an ImportError that leaves the parser CALL stores `None`) applied to the
+    coherent tables of a fresh process yields tables that are not coherent; so does the pre-fix callout rule -/
+theorem old_rule_breaks_coherence :
+    Coherent exEnv {} ∧
+    ¬ Coherent exEnv { ud := (udLookupOld exEnv [] (s "x2222") true).2 } ∧
+    ¬ Coherent exEnv { callout := (calloutLookupOld exEnv [] (s "x") true).2 } := by
+  refine ⟨coherent_init _, ?_, ?_⟩
+  · intro hc
+    exact absurd (hc.1 (s "x2222")) (by decide)
+  · intro hc
+    exact absurd (hc.2.2.1 (s "x")) (by decide)
+
+/-! ### non-vacuity -/
+
+/-- the rules at work (`cache_contents`, `lookup_preserves_coherent` are about something): `x8888` (import raises) is looked
+    up twice and stored never; `ysrc` (import raises) is stored as `None`; `o7700`, `o7800` (import raises) are not stored by
+    the wrapper, `o9900` (not there) is -/
+example : (stepCaches exEnv {} exLookups).ud =
+    [(s "x2222", some (.raises (s "boom"))), (s "x4444", none), (s "x1111", some .echo)] := by decide
+example : (stepCaches exEnv {} exLookups).src =
+    [(s "osrc", some .osrcWrapper), (s "zsrc", none), (s "ysrc", none), (s "xsrc", some (.parser .echo))] := by decide
+example : (stepCaches exEnv {} exLookups).osrc = [(s "o9900", none), (s "o8d00", some .echo)] := by decide
+example : (stepCaches exEnv {} exLookups).callout =
+    [(s "z", none), (s "y", none), (s "x", some (.table [(s "PROC0001", [s "line one"])]))] := by decide
+/-- a file is loaded when its name CONTAINS the suffix; the later file of the same prefix wins -/
+example : (stepCaches exEnv {} exLookups).comp =
+    { attempted := true, table := [(s "O", [(s "2000", s "old")]), (s "B", [(s "2000", s "hb")])] } := by decide
+example : (stepCaches exEnv {} [.compId]).comp = (stepCaches exEnv {} exLookups).comp := by decide
+
+/-- `lookup_preserves_coherent`, `inv_preserved`, `history_coherent`: the hypothesis is met by tables that are not empty -/
+example : Coherent exEnv (stepCaches exEnv {} exLookups) :=
+  inv_preserved exEnv {} {} [] exLookups (coherent_init exEnv)
+example : Coherent exEnv (stepLookup exEnv (stepCaches exEnv {} exLookups) (.ud (s "x8888"))) :=
+  lookup_preserves_coherent _ _ _ (inv_preserved exEnv {} {} [] exLookups (coherent_init exEnv))
+
+/-- `lookups_stable` on tables that are NOT coherent: the poisoned entry stays, and stays visible -/
+example : (udLookup exEnv (stepCaches exEnv { ud := [(s "x1111", none)] } exLookups).ud (s "x1111")).1 = .absent := by decide
+
+/-- `history_independent`, `repeat_same`: a history of two decodes, then a third -/
+example (cfg : SelCfg) (b0 b1 b : Bytes) :
+    (decodeS exEnv cfg (runHistory exEnv cfg {} [(b0, exLookups), (b1, [.ud (s "x8888"), .osrc (s "o7700")])]) b exLookups).1 =
+    parsePEL exEnv.fresh cfg b := history_independent _ _ _ _ _
+/-- … and the fresh environment of `exEnv` has the loaded component-id table -/
+example : exEnv.fresh.T.compIds = [(s "O", [(s "2000", s "old")]), (s "B", [(s "2000", s "hb")])] := by decide
+
+/-- `cache_contents` on a concrete history: the module whose import raises is in no table, the one that is not there is `None` -/
+example (cfg : SelCfg) (b0 : Bytes) : ∀ v, (s "x8888", v) ∉ (runHistory exEnv cfg {} [(b0, exLookups)]).ud :=
+  (cache_contents exEnv cfg [(b0, exLookups)]).2.1 (s "x8888") (s "load failure") (by decide)
+example (cfg : SelCfg) (b0 : Bytes) : (s "x4444", none) ∈ (runHistory exEnv cfg {} [(b0, exLookups)]).ud := by
+  show (s "x4444", none) ∈ (stepCaches exEnv {} exLookups).ud
+  decide
+/-- `cache_contents`: the import outcomes it speaks about all occur in `exEnv` -/
+example : exEnv.srcSiteImport (s "ysrc") = .failed .other ∧ exEnv.srcImport (s "o7800") = .failed .importError ∧
+    exEnv.srcImport (s "o9900") = .failed .notFound ∧ exEnv.calloutImport (s "y") = .failed .other ∧
+    exEnv.ud (s "x8888") = .importRaises (s "load failure") := by decide
 
 end Pel.C19
